@@ -233,17 +233,27 @@ def eval_listcomp(I, node, frame):
     # pointwise map over a symbolic sequence: the element expression must be pure (no forks, no exceptions)
     length, elem_at = sequence_view(I, seq, node)
     j = z3.Int(I.path.fresh_name('j!b'))
-    with PureMode(I, node):
-        I.assign(gen.target, elem_at(j), f2)
-        body = I.eval(node.elt, f2)
+    rng_assume = z3.And(0 <= j, j < length)
+    I.path.pc.append(rng_assume)
+    try:
+        with PureMode(I, node):
+            I.assign(gen.target, elem_at(j), f2)
+            body = I.eval(node.elt, f2)
+    finally:
+        idx = max(i for i, c in enumerate(I.path.pc) if c is rng_assume)
+        del I.path.pc[idx]
     if body.kind not in ('int', 'bool', 'real', 'str', 'bytes', 'rec'):
         I.oos(node, f"comprehension element of kind {body.kind}")
     ety = body.kind if body.kind != 'rec' else ('rec', body.extra['classes'])
     lt = TY.list_theory(TY.smt_sort(ety))
     L = z3.Const(I.path.fresh_name('comp'), lt.sort)
     I.path.assume(lt.llen(L) == length)
-    I.path.assume(z3.ForAll([j], z3.Implies(z3.And(0 <= j, j < length), lt.lat(L, j) == body.t),
-                            patterns=[lt.lat(L, j)]))
+    pats = [lt.lat(L, j)]
+    if seq.kind == 'slist':
+        # also define element j of the new list whenever element j of the source list is mentioned
+        slt = TY.list_theory(TY.smt_sort(seq.extra['elem']))
+        pats.append(slt.lat(seq.t, j))
+    I.path.assume(z3.ForAll([j], z3.Implies(z3.And(0 <= j, j < length), lt.lat(L, j) == body.t), patterns=pats))
     return SV('slist', L, extra={'elem': ety})
 
 
@@ -259,9 +269,11 @@ class PureMode:
 
         def no_branch(n, conds=None):
             if conds is not None:
-                live = [c for c in conds if not z3.is_false(z3.simplify(c))]
+                live = [i for i, c in enumerate(conds) if not z3.is_false(z3.simplify(c))]
+                if len(live) > 1:
+                    live = [i for i in live if I.path._feasible(conds[i])]
                 if len(live) == 1:
-                    return [i for i, c in enumerate(conds) if not z3.is_false(z3.simplify(c))][0]
+                    return live[0]
             raise OutOfSubset(f"forking inside a pure comprehension element (line {getattr(node, 'lineno', '?')})")
         self.I.path.branch = no_branch
 
@@ -327,7 +339,8 @@ def eval_sum(I, arg, node):
     else:
         items = iter_concrete(I, arg, node)
         if items is None:
-            I.oos(node, "sum over symbolic sequence")
+            from .lists import slist_sum
+            return slist_sum(I, arg, node)
     acc = mk_int(0)
     for it in items:
         acc = I.binop(ast.Add(), acc, it, node)
